@@ -370,7 +370,7 @@ func CompareAgg(got seq.AggregationResult, want model.AggRes, s AggSpec) error {
 		if exactValue {
 			tol = 0
 		}
-		if !model.CloseEnough(b.Value, w.Value, tol) {
+		if !model.CloseEnoughScaled(b.Value, w.Value, tol, w.Scale) {
 			return fmt.Errorf("bucket %+v: value %v, want %v", k, b.Value, w.Value)
 		}
 		if s.Func == "quantile" {
